@@ -386,6 +386,7 @@ def run(R):
         R.case(case, nontrivial=len(positions) >= 2)
         R.count(f"seq:{enc}:{kind}")
     _handles_stream(R, rng, quick)
+    _sharded_stream(R, rng, quick)
     R.extra["jpeg_max_abs_error_observed"] = int(jpeg_err)
     R.notes.append("JPEG: only shape/dtype and a loose error bound (<= 64 grey levels on smooth data) are "
                    "checked; the bound is a test, not a theorem (libjpeg is outside the model)")
@@ -549,6 +550,70 @@ def _handles_stream(R, rng, quick):
             R.disagree("stored info / number of live objects vs PioHandles model", case,
                        {"stored": stored_now, "objects": len(objs)},
                        {"stored": want_stored, "objects": int(rep[2])})
+
+
+def _sharded_stream(R, rng, quick):
+    """The I/O layer over the sharded file accessor (an accessor kind like the others): every chunk of a small
+    scale written through write_chunk, the accessor closed, every chunk read back through a fresh handle.
+    Index and data encodings vary independently (the format allows them to differ)."""
+    import atexit
+    from neuroglancer_scripts import accessor, precomputed_io
+    for si in range(24 if quick else 600):
+        dt = rng.choice(["uint8", "uint16", "uint32", "uint64", "float32"])
+        nch = rng.choice([1, 2])
+        c = rng.choice([2, 4, 8])
+        size = [rng.randrange(1, 3 * c + 1) for _ in range(3)]
+        enc = "compressed_segmentation" if dt in ("uint32", "uint64") and rng.random() < 0.4 else "raw"
+        ie, de = [("raw", "raw"), ("gzip", "gzip"), ("raw", "gzip"), ("gzip", "raw")][si % 4]
+        sc = {"key": "s0", "size": size, "chunk_sizes": [[c, c, c]], "encoding": enc, "resolution": [1, 1, 1],
+              "voxel_offset": [0, 0, 0],
+              "sharding": {"@type": "neuroglancer_uint64_sharded_v1", "minishard_bits": rng.randrange(0, 3),
+                           "shard_bits": rng.randrange(0, 3), "preshift_bits": rng.randrange(0, 2), "hash": "identity",
+                           "minishard_index_encoding": ie, "data_encoding": de}}
+        if enc == "compressed_segmentation":
+            sc["compressed_segmentation_block_size"] = [rng.choice([2, 4, 8]) for _ in range(3)]
+        info = {"type": "image", "data_type": dt, "num_channels": nch, "scales": [sc]}
+        d = os.path.join(R.tmp, f"sh{si}")
+        case = {"sharded_stream": True, "data_type": dt, "num_channels": nch, "size": size, "chunk": c, "encoding": enc,
+                "minishard_index_encoding": ie, "data_encoding": de,
+                "bits_msp": [sc["sharding"][k] for k in ("minishard_bits", "shard_bits", "preshift_bits")]}
+        R.case(case, nontrivial=True)
+        R.count(f"sharded:{enc}:index={ie}:data={de}")
+        import contextlib
+        import io as _io
+        try:
+            with contextlib.redirect_stdout(_io.StringIO()):
+                acc = accessor.get_accessor_for_url(d, {"sharding": True})
+                pio = precomputed_io.get_IO_for_new_dataset(info, acc)
+                grid = [(x, min(x + c, size[0]), y, min(y + c, size[1]), z, min(z + c, size[2]))
+                        for x in range(0, size[0], c) for y in range(0, size[1], c) for z in range(0, size[2], c)]
+                rng.shuffle(grid)
+                written = {}
+                for cc in grid:
+                    shape = (nch, cc[5] - cc[4], cc[3] - cc[2], cc[1] - cc[0])
+                    n_el = int(np.prod(shape))
+                    if dt == "float32":
+                        arr = np.array([rng.uniform(-9, 9) for _ in range(n_el)], dtype=dt).reshape(shape)
+                    else:
+                        hi = int(np.iinfo(dt).max)
+                        arr = np.array([rng.choice([0, 1, hi, rng.randrange(hi)]) for _ in range(n_el)],
+                                       dtype=dt).reshape(shape)
+                    pio.write_chunk(arr, "s0", cc)
+                    written[cc] = arr
+                acc.close()
+                atexit.unregister(acc.close)
+                acc2 = accessor.get_accessor_for_url(d)
+                pio2 = precomputed_io.get_IO_for_existing_dataset(acc2)
+                for cc, arr in written.items():
+                    got = pio2.read_chunk("s0", cc)
+                    if got.shape != arr.shape or got.dtype.newbyteorder("=") != arr.dtype or got.tobytes() != arr.tobytes():
+                        R.violation("sharded storage: a chunk written through the I/O layer reads back differently "
+                                    "through a fresh handle", dict(case, coords=list(cc)), {})
+                        break
+                atexit.unregister(acc2.close)
+        except Exception as e:  # noqa: BLE001
+            R.violation("sharded storage: writing or reading back through the I/O layer failed", case,
+                        {"exc": f"{type(e).__name__}: {e}"[:300]})
 
 
 def precomputed_ok(info):
